@@ -250,6 +250,13 @@ def captured_pincite_pattern(parties=None):
         return P()
 
     it.stubs[re.compile] = compile_
+
+    # the same search written with the module-level function
+    def finditer_(pattern, text, flags=0):
+        got.append((str(pattern), int(flags)))
+        return []
+
+    it.stubs[re.finditer] = finditer_
     plain = f"{parties['plaintiff']} v. {parties['defendant']}, 1 U.S. 1. Later Baz at 5."
     s = plain.index("1 U.S. 1")
     c = M.FullCaseCitation(M.CitationToken("1 U.S. 1", s, s + 8, groups={"volume": "1", "reporter": "U.S.", "page": "1"}), 0)
@@ -275,7 +282,7 @@ def _pincite_pattern_clause(rep, cfg, parties):
     SEC = "pincite_pattern_" + cfg
     rep.sections[SEC] = {"parties": parties, "valid": valid_names(parties), "captured": got}
     if len(got) != 1 or len(outs) != 1 or outs[0][0] != "ok":
-        rep.inconc(f"pincite pattern clause: expected one re.compile call, got {got} / {outs[:1]}")
+        rep.inconc(f"pincite pattern clause: expected one re.compile / re.finditer call, got {got} / {outs[:1]}")
         return
     pattern, flags = got[0]
     t0 = time.time()
